@@ -89,6 +89,7 @@ func Analyze(P *Program, fn *ssa.Function, opts *AnalyzeOpts) *Summary {
 		in = opts.Sess.in
 		in.events, in.Fail, in.steps = nil, opts.Sess.fail, 0
 		in.PureInvoke, in.InvokeHook, in.MapLookup, in.Intrinsic, in.WrapEq = false, nil, nil, nil, false
+		in.MapLen, in.TermEq = -1, false
 		st = opts.Sess.base.clone()
 	}
 	if opts != nil && opts.Setup != nil {
